@@ -15,7 +15,8 @@ CONSTANTS MaxSteps, PSet, Tier
 G3 == <<"0", "1/2", "1">>
 G4 == <<"0", "1/8", "1/2", "1">>
 G5 == <<"0", "1/10", "1/3", "3/4", "1">>
-GridChoices == IF Tier = "quick" THEN {G3, G4} ELSE {G3, G4, G5}
+\* thorough: the 5-point grid for one and two populations, 3 points for three (64- and 125-point states are too heavy for exact arithmetic)
+GridChoices(P) == IF Tier = "quick" THEN {G3, G4} ELSE IF P >= 3 THEN {G3} ELSE {G3, G4, G5}
 Nus    == {"1/2", "3"}
 Gammas == {"-2", "0", "3"}
 Hs     == IF Tier = "quick" THEN {"1/2", "1"} ELSE {"0", "1/2", "1"}
@@ -38,7 +39,7 @@ GenData(sh)  == [q \in 1..Size(sh) |-> RInt(1 + ((q * q * 7) % 11))]
 ParOf(P, k, nu, gm, h, m) == [nu |-> nu, gamma |-> gm, h |-> h, beta |-> IF P = 1 THEN "2" ELSE "1",
                               mig |-> [j \in 1..P |-> IF j = k THEN "0" ELSE m[j]]]
 Init == /\ phase = "choose" /\ swept = {} /\ steps = 0 /\ acct = "0"
-        /\ \E P \in PSet : \E g \in GridChoices : \E nu1 \in Nus : \E gm \in Gammas : \E h \in Hs : \E m \in Migs : \E fz \in BOOLEAN :
+        /\ \E P \in PSet : \E g \in GridChoices(P) : \E nu1 \in Nus : \E gm \in Gammas : \E h \in Hs : \E m \in Migs : \E fz \in BOOLEAN :
               /\ (fz => (m = "0" /\ P >= 2))
               /\ cf = [P |-> P, grids |-> [k \in 1..P |-> g],
                        \* axis 1 gets (nu1, gm, h); the other axes a fixed different profile; migration m between all pairs
